@@ -15,6 +15,7 @@
 package derive
 
 import (
+	"bytes"
 	"fmt"
 	"go/ast"
 	"go/format"
@@ -165,6 +166,11 @@ func newPackage(program *loader.Program, pkgInfo *loader.PackageInfo, plugins []
 			if _, err := parser.ParseFile(token.NewFileSet(), fileInfo.fullpath, nil, parser.ParseComments); err != nil {
 				return nil, fmt.Errorf("not rewriting %s, which does not parse: %v", fileInfo.fullpath, err)
 			}
+			// The new text is complete before the file is touched: a file that cannot be formatted is left as it is.
+			newText := bytes.NewBuffer(nil)
+			if err := format.Node(newText, program.Fset, fileInfo.astFile); err != nil {
+				return nil, fmt.Errorf("formatting %s: %v", fileInfo.fullpath, err)
+			}
 			info, err := os.Stat(fileInfo.fullpath)
 			if err != nil {
 				return nil, fmt.Errorf("stat %s: %v", fileInfo.fullpath, err)
@@ -174,8 +180,8 @@ func newPackage(program *loader.Program, pkgInfo *loader.PackageInfo, plugins []
 				return nil, fmt.Errorf("opening %s: %v", fileInfo.fullpath, err)
 			}
 			defer f.Close()
-			if err := format.Node(f, program.Fset, fileInfo.astFile); err != nil {
-				return nil, fmt.Errorf("formatting %s: %v", fileInfo.fullpath, err)
+			if _, err := newText.WriteTo(f); err != nil {
+				return nil, fmt.Errorf("writing %s: %v", fileInfo.fullpath, err)
 			}
 		}
 
